@@ -461,6 +461,14 @@ def vers_rules(ctx, facts, rep):
                    (x[0] == "Ne" and x[2][0] == "const" and x[2][2] == 0 and any(y[0] == "call" and y[1].endswith("zip64_extension") for y in walk(x[1])))
                    for x in fs) or any(x[0] in ("Eq",) and any(y[0] == "call" and y[1].endswith("zip64_extension") for y in walk(x[1])) and x[2][2] == 1 for x in fs)
         ok &= rep.check(good, rule, "45-iff-zip64", where(vn, vn.span), "45 only when a ZIP64 field is needed", "version 45 is not tied to zip64_extension()")
+    ze = facts.find(r"^types::ZipFileData::zip64_extension$")
+    if ze:
+        from rules.C03 import any_field_table
+        T = 0xFFFFFFFF
+        good = any_field_table(ze[0], {"uncompressed_size": T, "compressed_size": T, "header_start": T}, ("Gt",)) or \
+            any_field_table(ze[0], {"uncompressed_size": T - 1, "compressed_size": T - 1, "header_start": T - 1}, ("Gt",))
+        ok &= rep.check(good, rule, "zip64_extension=any-field-needs-64-bits", where(ze[0], ze[0].span), "zip64_extension() <=> one of the two sizes or the header offset exceeds 32 bits",
+                        "zip64_extension() is not `uncompressed size, compressed size or header offset does not fit 32 bits`: entries that carry a ZIP64 record declare version 2.0")
     if 46 in vals and "Bzip2" in inv:
         fs = dominating_facts(vn, ex, vals[46])
         good = any(x[0] == "Eq" and x[1][0] == "discr" and x[2][2] == inv["Bzip2"] for x in fs) or \
